@@ -74,6 +74,8 @@ def _check_history(case, strict):
                     plc.write(*pairs) if len(pairs) > 1 else plc.write(pairs[0][0], pairs[0][1])
                 elif op["op"] == "upload":
                     plc.get_tag_list(program="*")
+                elif op["op"] == "reopen":
+                    plc.open()      # open() on an open driver is valid; the connection stays, so the count must go on
             except PycommError as e:
                 if strict and op["op"] in ("read", "write"):
                     # read / write answer with Tags; near the counter wrap they must not start raising
@@ -150,7 +152,7 @@ def histories(draw):
                           "once": draw(st.booleans())}]
     ops = []
     for _ in range(draw(st.integers(3, 14))):
-        k = draw(st.sampled_from(["generic", "read", "read", "write", "write", "upload"]))
+        k = draw(st.sampled_from(["generic", "generic", "read", "read", "write", "write", "upload", "reopen"]))
         if k == "generic":
             ops.append({"op": k, "attr": draw(st.integers(1, 7))})
         elif k == "read":
